@@ -29,7 +29,7 @@ PROPS = {
                      "fault kinds: none exist at this surface (in-memory scanner, no I/O)"],
     ),
     "C17": one(
-        60_000, 15_000_000,
+        40_000, 8_000_000,
         anchor_files=["tokenizers/utilities/CharReferenceMap.go", "tokenizers/utilities/CharReferenceInterval.go"],
         rule="A case is one history of 1-30 AddInterval / AddDefaultInterval / Clear / Lookup operations (endpoints and probes from "
              "{0,'a',0xFF,0x100,0x101,0x2000,0xFFFE} and their neighbours, references A, B, none) on one of: a raw CharReferenceMap, "
